@@ -38,9 +38,9 @@ func CheckC19(e *Env) (int, error) {
 	var diverged []key
 	var traced []*kernel.Result
 	start := time.Now()
-	poolPer, signPer := 250, 12
+	poolPer, signPer, lookPer := 250, 12, 1500
 	if e.Tier == "thorough" {
-		poolPer, signPer = 1000, 50
+		poolPer, signPer, lookPer = 1000, 50, 6000
 	}
 	for round := 0; ; round++ {
 		if round > 0 && time.Since(start) > budget {
@@ -50,6 +50,7 @@ func CheckC19(e *Env) (int, error) {
 		for k := 0; k < 8; k++ {
 			pf := (round*8 + k) * poolPer
 			sf := (round*8 + k) * signPer
+			lf := (round*8 + k) * lookPer
 			var extra []string
 			if round == 0 && k == 0 {
 				extra = []string{"-trace"}
@@ -58,7 +59,9 @@ func CheckC19(e *Env) (int, error) {
 				&Job{Bin: binA, Variant: "asm", World: "pool", Prop: prop, From: pf, N: poolPer, Extra: extra},
 				&Job{Bin: binP, Variant: "purego", World: "pool", Prop: prop, From: pf, N: poolPer},
 				&Job{Bin: binA, Variant: "asm", World: "sign", Prop: prop, From: sf, N: signPer},
-				&Job{Bin: binP, Variant: "purego", World: "sign", Prop: prop, From: sf, N: signPer})
+				&Job{Bin: binP, Variant: "purego", World: "sign", Prop: prop, From: sf, N: signPer},
+				&Job{Bin: binA, Variant: "asm", World: "lookup", Prop: prop, From: lf, N: lookPer},
+				&Job{Bin: binP, Variant: "purego", World: "lookup", Prop: prop, From: lf, N: lookPer})
 		}
 		e.RunJobs(jobs)
 		for _, j := range jobs {
@@ -92,7 +95,7 @@ func CheckC19(e *Env) (int, error) {
 				}
 			}
 		}
-		if len(diverged) > 0 || len(a.Harness) > 0 {
+		if len(diverged) > 0 || len(a.Harness) > 0 || len(a.Violating) > 0 {
 			break
 		}
 	}
@@ -128,6 +131,21 @@ func CheckC19(e *Env) (int, error) {
 			exit = 1
 		}
 	}
+	// in-run violations of C19 (lookup world: wrong entry, fault, bytes
+	// beyond the coordinates written by the SSE2 routine, ...)
+	out, err := e.conclude(prop, a, func(r *kernel.Result) (string, string) {
+		if r.Variant == "purego" {
+			return binP, "purego"
+		}
+		return binA, "asm"
+	}, budgetSeconds(e.Tier, 60, 300))
+	if err != nil {
+		return 2, err
+	}
+	if out.exit == 1 {
+		exit = 1
+	}
+	nViol += out.violations
 	cov := 0
 	for _, b := range lookup {
 		for i := 0; i < 8; i++ {
@@ -145,7 +163,7 @@ func CheckC19(e *Env) (int, error) {
 	cv := map[string]any{
 		"evaluations":                         pairs,
 		"distinct_nontrivial":                 len(a.NonTrivial),
-		"rule":                                "case = one seeded history (pool world: <= 80 API calls over a mutable object pool; sign world: <= 64 signing operations under fault-injecting entropy devices) executed in BOTH builds (amd64 assembly, purego) from the same tape; the SHA-256 over every step's inputs and outputs must be identical. evaluations = history pairs compared; distinct_nontrivial = distinct history digests in which at least one injected fault fired.",
+		"rule":                                "case = one seeded history (pool world: <= 80 API calls over a mutable object pool; sign world: <= 64 signing operations under fault-injecting entropy devices; lookup world: <= 48 steps of raw constant-time table lookups / table refills / destination overwrites through a verif-tagged hook, with tables and destinations placed at 0 or 8 mod 16) executed in BOTH builds (amd64 assembly, purego) from the same tape; the SHA-256 over every step's inputs and outputs must be identical. evaluations = history pairs compared; distinct_nontrivial = distinct history digests in which at least one injected fault fired.",
 		"samples":                             samplesFrom(traced, 2),
 		"history_pairs_compared":              pairs,
 		"diverging_pairs":                     len(diverged),
@@ -159,11 +177,12 @@ func CheckC19(e *Env) (int, error) {
 		"runs_by_world":                       a.ByWorld,
 		"simulated_time":                      fmt.Sprintf("%d logical steps", a.Steps),
 		"runs_per_hour":                       int(float64(a.Runs) / time.Since(e.Start).Hours()),
-		"real_vs_stub":                        "real: all of /repo in two build configurations (SSE2 assembly lookups vs portable lookups). stub: entropy devices. model: none needed (the two builds are each other's oracle).",
+		"real_vs_stub":                        "real: all of /repo in two build configurations (SSE2 assembly lookups vs portable lookups); in the lookup world the real lookup routines are called directly through a verif-tagged hook. stub: entropy devices; placement of tables/destinations in memory is decided by the tape. model: the two builds are each other's oracle, plus byte-exact selection of the table entry.",
 	}
 	ev := &Evidence{PropertyID: prop, Tier: e.Tier, Seed: int64(e.Seed), Level: "exploration", Coverage: cv, WallS: time.Since(e.Start).Seconds(), Violations: nViol,
 		Assumptions: []string{
-			"public-operation clause only: per-index/per-table-content exactness of the lookup routines is an input enumeration over a hook and is not decided",
+			"the lookup-level clause is sampled (table contents from six pattern families x 15 slots x 12/8 limb positions x 64 bit positions, 16 indices, 2x2 placements, dirty destinations), not enumerated",
+			"index 0 of the affine lookup is only exercised with a zeroed destination (the contract every caller in the library honours): with a dirty destination the portable routine leaves it unchanged while the SSE2 routine stores zero, which no public operation can observe",
 			"one seed is one exactly repeatable execution (validated by ./check --selftest), so any digest difference is caused by the build configuration",
 		}}
 	if err := writeEvidence(e.VerifDir, ev); err != nil {
